@@ -255,6 +255,30 @@ def fcfg_desc(draw, features=True, eps=True):
                 p = [head, ({sig[head][0]: "?x"} if sig[head] and draw(st.booleans()) else {}), body]
                 if p not in prods:
                     prods.append(p)
+    # re-entrancy against no re-entrancy: twin productions of a two-feature variable, one sharing a value between
+    # its features and one not, under a production that hands the two features to two different constituents
+    two = [nme for nme in names if len(sig[nme]) == 2]
+    others = [nme for nme in names if sig[nme]]
+    if features and two and draw(st.sampled_from([0, 0, 1])) == 1:
+        a = draw(st.sampled_from(two))
+        f1, f2 = sig[a]
+        t = draw(st.sampled_from(terms))
+        twins = [[a, {f1: "?z", f2: "?z"}, [["T", t]]],
+                 [a, draw(st.sampled_from([{f1: "?w", f2: "?k"}, {}, {f1: "?w"}])), [["T", t]]]]
+        rest = [nme for nme in others if nme != a] or others
+        x, y = draw(st.sampled_from(rest)), draw(st.sampled_from(rest))
+        # the consumer is not recursive (see the note on vanishing constituents above)
+        heads = [h for h in names if h not in (a, x, y)]
+        consumer = [draw(st.sampled_from(heads)) if heads else None, {},
+                    [["V", a, {f1: "?x", f2: "?y"}], ["V", x, {sig[x][0]: "?x"}], ["V", y, {sig[y][0]: "?y"}]]]
+        if draw(st.booleans()):
+            consumer[2] = [consumer[2][1], consumer[2][0], consumer[2][2]]
+        extra = twins + ([consumer] if consumer[0] is not None else [])
+        for nme, val, tt in ((x, "u", "b"), (y, "v", "a")):
+            extra.append([nme, {sig[nme][0]: val}, [["T", tt]]])
+        for p in extra:
+            if p not in prods:
+                prods.append(p)
     return {"start": "S", "sig": sig, "prods": prods}
 
 
